@@ -84,7 +84,9 @@ fn graph_dump(manifest_name: &str) -> (String, Vec<n2::verif::BuildDump>) {
         Ok(t) => t,
         Err(_) => return ("G err -".to_string(), Vec::new()),
     };
-    let s = match n2::verif::Session::load_text(manifest_name, text) {
+    // like load::read, the manifest is read under its canonical name (that is the `file` of every `file:line`)
+    let canon_name = n2::canon::to_owned_canon_path(manifest_name);
+    let s = match n2::verif::Session::load_text(&canon_name, text) {
         Ok(s) => s,
         Err(e) => return (format!("G err {}", hex(e.as_bytes())), Vec::new()),
     };
@@ -155,6 +157,11 @@ fn graph_dump(manifest_name: &str) -> (String, Vec<n2::verif::BuildDump>) {
     write!(o, " D {}", defs.len()).unwrap();
     for d in &defs {
         write!(o, " {}", idx[d.as_str()]).unwrap();
+    }
+    // the `file:line` of every step, as `-d explain` prints it
+    write!(o, " L").unwrap();
+    for b in &builds {
+        write!(o, " {}", hex(b.location.as_bytes())).unwrap();
     }
     (o, builds)
 }
@@ -316,7 +323,10 @@ impl n2::verif::ProgressSink for Sink {
             .printed
             .push((id, termination, output.to_vec()));
     }
-    fn log(&self, _msg: &str) {}
+    fn log(&self, msg: &str) {
+        // `-d explain` messages: kept in the trace, in order with the verdicts they belong to
+        n2::verif::trace_push(format!("log {}", hex(msg.as_bytes())));
+    }
 }
 
 fn tree_listing(dir: &Path, prefix: &str, out: &mut Vec<String>) {
@@ -409,6 +419,7 @@ pub fn hist_line(line: &str) -> String {
                 let j: usize = w[1].parse().unwrap();
                 let k: Option<usize> = if w[2] == "-" { None } else { Some(w[2].parse().unwrap()) };
                 let adopt = w[3] == "1";
+                let explain = w.len() > 7 && w[7] == "x";
                 let mname = if w[4] == "-" {
                     None
                 } else {
@@ -453,7 +464,7 @@ pub fn hist_line(line: &str) -> String {
                 n2::verif::trace_begin();
                 let sh2 = shared.clone();
                 let r = std::panic::catch_unwind(std::panic::AssertUnwindSafe(|| {
-                    n2::verif::run_build(mname.clone(), targets.clone(), j, k, false, adopt)
+                    n2::verif::run_build(mname.clone(), targets.clone(), j, k, explain, adopt)
                 }));
                 let _ = sh2;
                 let trace = n2::verif::trace_end();
